@@ -223,6 +223,13 @@ def scenarios(tier):
                "inject": [{"bytes": tcp_reply_opts(a(1), 80, 0x12, 40, 40), "afterProbe": 1, "delayMs": 30}, {"bytes": tcp_reply_opts(a(0), 80, 0x12, 8, 20), "afterProbe": 1, "delayMs": 40},
                           {"bytes": tcp_reply_opts(a(0), 81, 0x12, 40, 40), "afterProbe": 1, "delayMs": 50}],
                "expect": packet_expect("tcpsyn", target(net30, 31, [rng(80, 80)]), [[rng(80, 80)]], [2], 400)})
+    # 9h'. a long reply followed by a frame that ends after the TCP ports (its IPv4 header promises a TCP header that is not there):
+    # the second one is not a well-formed reply and yields nothing - in particular not the rest of the frame before it
+    long_reply = tcp_reply_opts(a(1), 80, 0x14, 0, 40)
+    cut = long_reply_cut = tcp_reply(a(0), 80, 0x14)[:38]
+    sc.append({"name": "tcp-fin-truncated-after-long", "args": ["tcp", "fin", "--json", "-p", "80"] + COMMON + ["--exit-delay", "400ms", "10.9.3.0/31"], "files": {"empty": ""},
+               "inject": [{"bytes": long_reply, "afterProbe": 1, "delayMs": 30}, {"bytes": cut, "afterProbe": 1, "delayMs": 40}, {"bytes": long_reply, "afterProbe": 1, "delayMs": 50}, {"bytes": cut, "afterProbe": 1, "delayMs": 60}],
+               "expect": packet_expect("tcpfin", target(net30, 31, [rng(80, 80)]), [[rng(80, 80)]], [2], 400)})
     # 9i. two default routes: the gateway of the scan interface is the fall-back destination MAC, not the gateway of the best route of the host
     gwa, gwb = [2, 0x5a, 8, 8, 8, 1], [2, 0x5a, 8, 8, 8, 2]
     cache = "".join('{"ip":"%s","mac":"%s"}\n' % (".".join(map(str, ip)), ":".join("%02x" % x for x in mac))
@@ -307,6 +314,10 @@ def scenarios(tier):
                "expect": packet_expect("arp", target(net30, 29, exclude=[{"ip": [10, 9, 3, 4], "len": 30}]), [[]], [4], 300, srcip=[10, 9, 0, 1], dstmac=[255] * 6)})
     sc.append({"name": "socks-exclude-from-pipe", "args": ["socks", "--json", "-p", "1080", "--exclude", "/dev/stdin", "10.200.0.16/29"], "listen": [1080], "stdin": "10.200.0.20/30\n",
                "expect": {"kind": "app", "scan": "socks", "target": target([10, 200, 0, 16], 29, [rng(1080, 1080)], exclude=[{"ip": [10, 200, 0, 20], "len": 30}])}})
+    # 9x'. an exclusion file far larger than a read buffer, the relevant lines first
+    bigex = "10.9.3.4/30\n10.9.3.9\n" + "".join("203.0.%d.%d/32\n" % (i // 250, i % 250 + 1) for i in range(1400))
+    sc.append({"name": "arp-big-exclude-file", "args": ["arp", "--json", "--exclude", "{dir}/bigex", "--exit-delay", "300ms", "10.9.3.0/28"], "files": {"bigex": bigex},
+               "expect": packet_expect("arp", target(net30, 28, exclude=[{"ip": [10, 9, 3, 4], "len": 30}, {"ip": [10, 9, 3, 9], "len": 32}]), [[]], [11], 300, srcip=[10, 9, 0, 1], dstmac=[255] * 6)})
     # 9y. more answering endpoints than the process may hold descriptors: every probe gives its connections back
     sc.append({"name": "docker-fd-limit", "args": ["docker", "--json", "--proto", "http", "-p", "2375", "-w", "8", "10.200.0.0/25"], "servers": {"2375": "json"}, "ulimitN": 64, "maxMs": 30000,
                "expect": dict(hexp(target([10, 200, 0, 0], 25, [rng(2375, 2375)]), 3, 128), scan="docker", hosts=True)})
